@@ -116,10 +116,33 @@ pub trait GraphNameIndex: TermIndex {
 //
 
 /// A generic implementation of [`TermIndex`].
-#[derive(Clone, Debug, Default)]
+#[derive(Debug, Default)]
 pub struct SimpleTermIndex<I: Index> {
     t2i: HashMap<SimpleTerm<'static>, I>,
     i2t: Vec<SimpleTerm<'static>>,
+}
+
+impl<I: Index> Clone for SimpleTermIndex<I> {
+    fn clone(&self) -> Self {
+        // The terms in `i2t` borrow their data from the keys of `t2i` (see `ensure_index`),
+        // so `i2t` can not simply be cloned: the clone would keep borrowing from the keys
+        // of the *original* index, and dangle as soon as that one is dropped or modified.
+        // Instead, it is rebuilt from the keys of the cloned `t2i`.
+        let t2i = self.t2i.clone();
+        let mut i2t: Vec<Option<SimpleTerm<'static>>> = Vec::new();
+        i2t.resize_with(t2i.len(), || None);
+        for (key, i) in &t2i {
+            let t2 = key.as_simple();
+            // the following is safe for the same reason as in `ensure_index`
+            let t2: SimpleTerm<'static> = unsafe { std::mem::transmute(t2) };
+            i2t[i.into_usize()] = Some(t2);
+        }
+        let i2t = i2t
+            .into_iter()
+            .map(|opt| opt.expect("t2i and i2t are a bijection"))
+            .collect();
+        Self { t2i, i2t }
+    }
 }
 
 impl<I: Index> SimpleTermIndex<I> {
